@@ -170,3 +170,19 @@ claim("C09", "TLC-certified poses + relational trace validation of real descript
       "Relational oracle only (the thinnest specification of the twenty, as the design says): the descriptor values themselves are not computed in TLA+; rotation tolerance is "
       "dominated by the discretisation error of the non-band-limited radial function, so sub-percent rotation defects (e.g. the N-slice defect, caught exactly by C08) are below it; "
       "Crystal.*_shape_descriptors are not driven.")
+
+claim("C07", "TLC trace validation against scipy reference harmonics with exact Gaussian-integer coefficient state + model checking of layouts, grid rule and completion",
+      "SHT.tla keeps the abstract state of a function as its exact coefficient vector over Gaussian integers plus a representation tag, and specifies the two coefficient "
+      "layouts, the grid-size rule with its sufficiency conditions, Hermitian completion, power, scaling/addition and Parseval exactly. MC_SHT (121k states, L <= 4; thorough "
+      "L <= 5) checks that both layouts are bijections in kernel order, the transcribed grid rule is sufficient for every L in 0..64, completion is injective/linear/power "
+      "preserving, and the as-coded loops equal the declarative operators. Real SHT objects for L in {0..12,16,23,32,47} (thorough 0..64) run event sequences (Load, Sample "
+      "from scipy sph_harm_y, Synthesis/Analysis compiled and pure Python, real and complex, Complete, PowerSpectrum, EvalAt, Combine) on dense vectors and every single "
+      "channel; TLC checks each observation (reference synthesis, exact coefficients, route agreement, completion, power, Parseval in BigInt, point evaluation).",
+      "Y_lm values are imported from scipy as 2^-40 fixed-point data (not computable in TLA+); slack 2^-30 relative; compiled kernels used as found; L = 0 complex skipped as in the statement.")
+claim("C08", "TLC exact oracle for N invariants / power spectrum / P ordering + relational rotation checks; model checking of the exact rotation subgroup",
+      "Invariants.tla computes N2(l), Power(l) and the P-triple selection (number, order, cap) exactly on Gaussian-integer coefficient vectors and defines the exact rotations "
+      "RotZ4 and FlipY. MC_Invariants (175k / 480k states) checks that N2 and Power are constant on every orbit of the order-8 group they generate, locality of N2 in the degree, "
+      "and that the kernel's triple loop equals the declarative selection for l_max 0..26. Real make_N_invariants / make_invariants / p_invariants_c / power_spectrum outputs "
+      "(l_max 1..12 and 22..26, complex and Hermitian vectors) must equal the exact N2/Power, have the specified length/order, be local in the degree, and be unchanged under "
+      "all D4 words (exact) and 50 / 1152 general rotations supplied by the harness and guarded by TLC (N2 preserved, else out of domain).",
+      "P-invariant values have no exact oracle (Clebsch-Gordan coefficients): checked relationally on their cubes; general rotations are numerical (scipy + least squares) and only trusted under the TLC guard.")
